@@ -23,178 +23,39 @@ EXPLANATION = (
 ASSUMPTIONS = ["the uploaded tag database describes the controller (C05)", "codec correctness is decided under C06/C07"]
 
 
-@rule(P, "D1.1", "T-SIB", floor=4)
+@rule(P, "D1.1", "T-WITNESS", floor=4)
 def d1_1(ctx):
-    """Both reply-splitting sites: same structure marker, header 4 bytes when it matches else 2; parse_value re-prepends the removed header."""
-    marker = ctx.folder.module_value("pycomm3.const", "STRUCTURE_READ_REPLY")
-    want = bytes.fromhex(ctx.spec("services")["structure_type_marker"])
-    cm = ctx.model.module("pycomm3.const")
-    ctx.check(marker == want, "pycomm3.const:STRUCTURE_READ_REPLY", cm.symbols["STRUCTURE_READ_REPLY"].node, "structure marker = A0 02", f"STRUCTURE_READ_REPLY is {marker!r}; a structure read reply starts with A0 02", got=marker)
-    # site 1: parse_read_reply
-    fn = ctx.model.func(f"{PU}:parse_read_reply")
-    f = fn.node
-    datap = f.args.args[0].arg
-    isv = [n for n in walk(f) if isinstance(n, ast.Assign) and isinstance(n.value, ast.Compare) and isinstance(n.value.left, ast.Subscript) and atom_name(n.value.left.value) == datap]
-    ok = False
-    facts = {}
-    if len(isv) == 1:
-        cmpn = isv[0].value
-        hi = ctx.folder.eval(cmpn.left.slice.upper, fn.module) if isinstance(cmpn.left.slice, ast.Slice) and cmpn.left.slice.upper is not None else None
-        mk = ctx.folder.eval(cmpn.comparators[0], fn.module)
-        flag = atom_name(isv[0].targets[0])
-        st = [n for n in walk(f) if isinstance(n, ast.IfExp) and atom_name(n.test) == flag and isinstance(n.body, ast.Subscript) and isinstance(n.orelse, ast.Subscript)]
-        if st:
-            a = ctx.folder.eval(st[0].body.slice.lower, fn.module)
-            b = ctx.folder.eval(st[0].orelse.slice.lower, fn.module)
-            facts = {"marker": mk, "marker_len": hi, "struct_header": a, "atomic_header": b}
-            ok = mk == want and hi == len(want) and a == 4 and b == 2 and isinstance(cmpn.ops[0], ast.Eq) and atom_name(st[0].body.value) == datap and st[0].body.slice.upper is None
-    ctx.check(ok, ckey(fn, "header-split"), f, "value bytes start after 4 header bytes for structures (marker A0 02) else after 2", f"parse_read_reply splits the type header as {facts}; expected marker A0 02 -> 4 bytes, else 2", **{k: str(v) for k, v in facts.items()})
-    # site 2: fragmented response
-    c = ctx.model.cls(f"{PL}:ReadTagFragmentedResponsePacket")
-    pr = c.methods["_parse_reply"]
-    ifs = [n for n in walk(pr) if isinstance(n, ast.If) and isinstance(n.test, ast.Compare) and isinstance(n.test.left, ast.Subscript) and attr_path(n.test.left.value) == "self.data"]
-    ok = False
-    facts = {}
-    if len(ifs) == 1:
-        t = ifs[0].test
-        mk = ctx.folder.eval(t.comparators[0], c.module)
-        hi = ctx.folder.eval(t.left.slice.upper, c.module)
-        def cuts(stmts):
-            out = {}
-            for s in stmts:
-                if isinstance(s, ast.Assign) and isinstance(s.value, ast.Subscript) and attr_path(s.value.value) == "self.data" and isinstance(s.value.slice, ast.Slice):
-                    lo = ctx.folder.eval(s.value.slice.lower, c.module) if s.value.slice.lower is not None else None
-                    up = ctx.folder.eval(s.value.slice.upper, c.module) if s.value.slice.upper is not None else None
-                    out[attr_path(s.targets[0])] = (lo, up)
-            return out
-        a, b = cuts(ifs[0].body), cuts(ifs[0].orelse)
-        facts = {"marker": mk, "struct": a, "atomic": b}
-        ok = mk == want and hi == len(want) and a == {"self.value_bytes": (4, None), "self._data_type": (None, 4)} and b == {"self.value_bytes": (2, None), "self._data_type": (None, 2)}
-    ctx.check(ok, ckey(c.key + "._parse_reply", "header-split"), pr, "value_bytes = data[4:] / data[2:], header kept as data[:4] / data[:2]", f"the fragmented reply splits the type header as {facts}", **{k: str(v) for k, v in facts.items()})
-    pv = c.methods["parse_value"]
-    calls = [x for x in walk(pv) if isinstance(x, ast.Call) and call_name(x) == "parse_read_reply"]
-    ok = len(calls) == 1 and src(calls[0].args[0]).replace(" ", "") == "self._data_type+self.value_bytes" and [attr_path(a) for a in calls[0].args[1:]] == ["self.request.tag_info", "self.request.elements"]
-    ctx.check(ok, ckey(c.key + ".parse_value"), pv, "reassembled value is parsed as header + all value bytes with the request's tag info and element count", "parse_value does not re-prepend the removed type header / uses other tag info")
-    r = ctx.model.cls(f"{PL}:ReadTagResponsePacket")
-    pr = r.methods["_parse_reply"]
-    calls = [x for x in walk(pr) if isinstance(x, ast.Call) and call_name(x) == "parse_read_reply"]
-    ok = len(calls) == 1 and [attr_path(a) for a in calls[0].args] == ["self.data", "self.tag_info", "self.elements"]
-    guard = any(isinstance(n, ast.If) and "self.is_valid()" in src(n.test) and "dont_parse" in src(n.test) for n in walk(pr))
-    ctx.check(ok and guard, ckey(r.key + "._parse_reply", "decode-call"), pr, "valid replies are decoded from the reply data with the request's tag info and element count", "ReadTagResponsePacket no longer decodes (data, tag_info, elements) of its own request when valid")
+    """Both reply-splitting sites cut the type prefix where the wire format puts it: 2 bytes, 4 when the reply starts with the
+    structure marker A0 02; `parse_value` decodes the prefix it removed together with the accumulated value bytes.  Decided
+    by folding `parse_read_reply` on witness replies (D1.13) and the fragment response class on witness frames (the
+    fragment-response group of sa/rules/packets.py).  An earlier form compared the two sites' source shapes and alarmed on
+    refactors that keep the split."""
+    from .packets import _emit, d1_13
+
+    d1_13(ctx)
+    _emit(ctx, {"fragment-response"})
 
 
-@rule(P, "D1.2", "T-SPEC", floor=5)
+@rule(P, "D1.2", "T-WITNESS", floor=5)
 def d1_2(ctx):
-    """Multi-service reply demultiplexing: padding equals the service-byte offset of the embedded parser; count/offset table layout; pairing."""
-    c = ctx.model.cls(f"{PL}:MultiServiceResponsePacket")
-    pr = c.methods["_parse_reply"]
-    sp = ctx.spec("reply")["connected"]
-    pad = None
-    for n in walk(pr):
-        if isinstance(n, ast.Assign) and atom_name(n.targets[0]) == "padding":
-            v = ctx.folder.eval(n.value, c.module)
-            pad = len(v) if isinstance(v, bytes) else None
-            zero = isinstance(v, bytes) and not any(v)
-    ctx.check(pad == sp["service"], ckey(c.key + "._parse_reply", "padding"), pr, f"each embedded reply is padded with {sp['service']} bytes so its service byte sits where the connected parser reads it",
-              f"embedded replies are padded with {pad} bytes but SendUnitDataResponsePacket reads the service at {sp['service']}, status at {sp['general_status']}, data at {sp['data']}: every sub-reply is mis-parsed", padding=pad)
-    use = [x for x in walk(pr) if isinstance(x, ast.Call) and attr_path(x.func) == "request.response_class" and len(x.args) == 2]
-    ok = len(use) == 1 and src(use[0].args[1]).replace(" ", "") == "padding+data"
-    ctx.check(ok, ckey(c.key + "._parse_reply", "padded-data"), pr, "sub-response raw data = padding + embedded reply", "sub-responses are not built from padding + embedded reply bytes")
-    # count at 0 (UINT), table from 2, entries UINT
-    cnt = [n for n in walk(pr) if isinstance(n, ast.Assign) and atom_name(n.targets[0]) == "num_replies"]
-    ok_cnt = len(cnt) == 1 and isinstance(cnt[0].value, ast.Call) and attr_path(cnt[0].value.func) == "UINT.decode" and attr_path(cnt[0].value.args[0]) == "self.data"
-    tbl = [n for n in walk(pr) if isinstance(n, ast.Assign) and atom_name(n.targets[0]) == "offset_data"]
-    ok_tbl = False
-    if tbl and isinstance(tbl[0].value, ast.Subscript) and isinstance(tbl[0].value.slice, ast.Slice):
-        lo = lin(tbl[0].value.slice.lower)
-        hi = lin(tbl[0].value.slice.upper)
-        ok_tbl = attr_path(tbl[0].value.value) == "self.data" and lo == Lin(2) and hi == Lin(2, {"num_replies": 2})
-    ent = [n for n in walk(pr) if isinstance(n, ast.GeneratorExp) and isinstance(n.elt, ast.Call) and attr_path(n.elt.func) == "UINT.decode"]
-    ok_ent = False
-    if ent:
-        g = ent[0].generators[0]
-        i = atom_name(g.target)
-        sl = ent[0].elt.args[0]
-        ok_ent = isinstance(sl, ast.Subscript) and atom_name(sl.value) == "offset_data" and atom_name(sl.slice.lower) == i and lin(sl.slice.upper) == Lin(2, {i: 1}) and isinstance(g.iter, ast.Call) and call_name(g.iter) == "range" and [src(a).replace(" ", "") for a in g.iter.args] == ["0", "len(offset_data)", "2"]
-    ctx.check(ok_cnt and ok_tbl and ok_ent, ckey(c.key + "._parse_reply", "offset-table"), pr, "UINT count at 0; UINT offsets at data[2 : 2+2n]", f"multi-service reply table parsing changed (count={ok_cnt}, table={ok_tbl}, entries={ok_ent})")
-    # consecutive pairing: tee + advance end by one + zip_longest; slices self.data[i:j]
-    tee = any(isinstance(x, ast.Call) and call_name(x) == "tee" for x in walk(pr))
-    adv = [x for x in walk(pr) if isinstance(x, ast.Call) and call_name(x) == "next" and atom_name(x.args[0]) == "end"]
-    zl = [x for x in walk(pr) if isinstance(x, ast.Call) and call_name(x) == "zip_longest" and [atom_name(a) for a in x.args] == ["start", "end"]]
-    sl = [n for n in walk(pr) if isinstance(n, ast.ListComp) and isinstance(n.elt, ast.Subscript) and attr_path(n.elt.value) == "self.data" and isinstance(n.elt.slice, ast.Slice)]
-    ok = tee and len(adv) == 1 and len(zl) == 1 and len(sl) == 1 and [atom_name(x) for x in sl[0].generators[0].target.elts] == [atom_name(sl[0].elt.slice.lower), atom_name(sl[0].elt.slice.upper)]
-    ctx.check(ok, ckey(c.key + "._parse_reply", "slicing"), pr, "reply i = data[offset_i : offset_{i+1}] (last one to the end)", "embedded replies are not cut at consecutive offsets")
-    # offsets written by the request side are relative to the count field too
-    q = ctx.model.cls(f"{PL}:MultiServiceRequestPacket")
-    bm = q.methods["build_message"]
-    first = [n for n in walk(bm) if isinstance(n, ast.Assign) and atom_name(n.targets[0]) == "offset"]
-    ok = len(first) == 1 and lin(first[0].value) == Lin(2, {"num_requests": 2})
-    upd = [n for n in walk(bm) if isinstance(n, ast.AugAssign) and atom_name(n.target) == "offset"]
-    ok = ok and len(upd) == 1 and src(upd[0].value).replace(" ", "") == "len(msg)"
-    ctx.check(ok, ckey(q.key + ".build_message", "offsets"), bm, "request offsets start at 2 + 2n and advance by each embedded message length", "multi-service request offsets are not 2 + 2n + running message lengths")
+    """Multi-service demultiplexing: the reply carries a UINT count and a table of UINT offsets relative to the count field,
+    member i is data[offset_i : offset_{i+1}] (the last one to the end), is parsed by the response class of request i and sees
+    its service / status / data where the connected parser reads them; the request writes the same table.  Decided on
+    witness frames (multi-request / multi-response groups of sa/rules/packets.py).  An earlier form matched the `tee` /
+    `zip_longest` idiom and the literal padding assignment and alarmed on equivalent list-based code."""
+    from .packets import _emit
+
+    _emit(ctx, {"multi-response", "multi-request"})
 
 
-@rule(P, "D1.4", "T-SIB", floor=3)
+@rule(P, "D1.4", "T-WITNESS", floor=3)
 def d1_4(ctx):
-    """parse_read_reply: arrays decoded with length=elements; [0] unwrapped only for one non-bit element; structures projected to visible attributes."""
-    fn = ctx.model.func(f"{PU}:parse_read_reply")
-    f = fn.node
-    dtp, elp = f.args.args[1].arg, f.args.args[2].arg
-    arr = [n for n in walk(f) if isinstance(n, ast.If) and isinstance(n.test, ast.Call) and call_name(n.test) == "issubclass" and atom_name(n.test.args[1]) == "ArrayType"]
-    ok = False
-    if len(arr) == 1:
-        a = arr[0]
-        dec = [s for s in a.body if isinstance(s, ast.Assign) and isinstance(s.value, ast.Call) and attr_path(s.value.func) == "_type.decode"]
-        kw = {k.arg: atom_name(k.value) for k in dec[0].value.keywords} if dec else {}
-        ok = bool(dec) and atom_name(dec[0].value.args[0]) == "stream" and kw == {"length": elp}
-        els = [s for s in a.orelse if isinstance(s, ast.Assign) and isinstance(s.value, ast.Call) and attr_path(s.value.func) == "_type.decode"]
-        ok = ok and bool(els) and [atom_name(x) for x in els[0].value.args] == ["stream"] and not els[0].value.keywords
-    ctx.check(ok, ckey(fn, "dispatch"), f, "array classes decode `elements` items; others decode one value from the same stream", "array tags are not decoded with length=elements / scalars not from the value stream")
-    tc = [n for n in walk(f) if isinstance(n, ast.Assign) and atom_name(n.targets[0]) == "_type"]
-    ok = len(tc) == 1 and src(tc[0].value).replace('"', "'") == f"{dtp}['type_class']"
-    ctx.check(ok, ckey(fn, "type-class"), f, "decoder = the tag's uploaded type_class", "the decoder is not the tag definition's type_class")
-    un = [n for n in walk(f) if isinstance(n, ast.If) and isinstance(n.test, ast.BoolOp) and isinstance(n.test.op, ast.And) and any(isinstance(s, ast.Assign) and isinstance(s.value, ast.Subscript) and ctx.folder.eval(s.value.slice, fn.module) == 0 for s in n.body)]
-    ok = False
-    if len(un) == 1:
-        vals = un[0].test.values
-        c0 = cmp_norm(vals[0])
-        one = c0 is not None and c0[0] == "==0" and c0[1].terms == {elp: 1} and c0[1].const == -1
-        nb = isinstance(vals[1], ast.UnaryOp) and isinstance(vals[1].op, ast.Not) and isinstance(vals[1].operand, ast.Call) and call_name(vals[1].operand) == "issubclass" and attr_path(vals[1].operand.args[0]) == "_type.element_type" and atom_name(vals[1].operand.args[1]) == "BitArrayType"
-        ok = one and nb and len(vals) == 2
-    ctx.check(ok, ckey(fn, "unwrap"), un[0] if un else f, "a single element is unwrapped only when elements == 1 and the element type is not a bit array", "the single-element unwrap condition changed (lists for scalars or scalars for BOOL arrays)")
-    # projection sites: the dict comprehension inline, or inside a helper of this module called with the decoded value
-    sites = []
-    for n in walk(f):
-        if isinstance(n, ast.DictComp):
-            sites.append((n, n, dtp, None))
-        elif isinstance(n, ast.Call) and isinstance(n.func, ast.Name):
-            h = ctx.model.functions.get(f"{fn.module.name}:{n.func.id}")
-            if h is not None:
-                for d in walk(h.node):
-                    if isinstance(d, ast.DictComp):
-                        params = [a.arg for a in h.node.args.args]
-                        sites.append((d, n, None, dict(zip(params, n.args))))
-    ok = bool(sites)
-    why = []
-    for d, at, dt_name, binding in sites:
-        g = d.generators[0]
-        it = src(g.iter).replace('"', "'")
-        if binding is not None:
-            dts = [p_ for p_, a in binding.items() if atom_name(a) == dtp]
-            dt_name = dts[0] if dts else None
-        shape = dt_name is not None and it == f"{dt_name}['data_type']['attributes']" and atom_name(d.key) == atom_name(g.target) and isinstance(d.value, ast.Subscript) and atom_name(d.value.slice) == atom_name(g.target) and not g.ifs
-        guard = next((a for a in ancestors(at) if isinstance(a, ast.If) and any(at is x for s_ in a.body for x in walk(s_))), None)
-        conj = []
-        if guard is not None:
-            conj = guard.test.values if isinstance(guard.test, ast.BoolOp) and isinstance(guard.test.op, ast.And) else [guard.test]
-        has_struct = any(atom_name(c) == "is_struct" for c in conj)
-        not_string = any(isinstance(c, ast.UnaryOp) and isinstance(c.op, ast.Not) and isinstance(c.operand, ast.Call) and call_name(c.operand) == "issubclass" and atom_name(c.operand.args[1]) == "StringDataType" for c in conj)
-        if not (shape and has_struct and not_string):
-            ok = False
-            why.append(f"{src(d)[:80]} under `{src(guard.test) if guard is not None else None}`")
-    ctx.check(ok, ckey(fn, "projection"), sites[0][0] if sites else f, "structure values are projected to the definition's visible attributes (strings excepted)", f"structure projection to data_type['attributes'] is missing, renames members or is applied to strings / non-structures: {why}")
-    stream = [n for n in walk(f) if isinstance(n, ast.Assign) and atom_name(n.targets[0]) == "stream" and isinstance(n.value, ast.Call) and call_name(n.value) == "BytesIO"]
-    ctx.check(len(stream) == 1, ckey(fn, "stream"), f, "one value stream per reply", "value stream construction changed")
+    """parse_read_reply: arrays decoded with length = elements; the single element is unwrapped only for one non-bit element;
+    structures are projected on their visible attributes (strings are not).  Decided by folding on 8 witness reply forms
+    (D1.13); hidden members at any nesting depth are D1.10."""
+    from .packets import d1_13
+
+    d1_13(ctx)
 
 
 KEY_CONSUMERS = ("read", "write", "_read_build_multi_requests", "_read_build_single_request", "_write_build_multi_requests", "_write_build_single_request")
@@ -297,110 +158,48 @@ def d1_6(ctx):
     d1_14(ctx)
 
 
-@rule(P, "D1.7", "T-UNIT", floor=5)
+@rule(P, "D1.7", "T-WITNESS", floor=5)
 def d1_7(ctx):
-    """BOOL-array word arithmetic: every constant is DWORD.size * 8; reads address element [0], writes word idx // 32; element count = ceil((bit + count) / 32)."""
+    """BOOL-array word arithmetic: a BOOL-array word holds DWORD.size * 8 = 32 bits; reads address element [0] and keep the bit
+    index, writes address word idx // 32; element count = ceil((bit + count) / 32); a DWORD array of n elements is BOOL[n * 32];
+    bit writes reduce the index modulo 32.  The constant is checked against the specification table; the arithmetic is decided
+    by folding `_parse_tag_request` (D1.11), `parse_read_reply` (D1.13), `encode_value` (D2.10) and the read-modify-write
+    packet (bit-write frames) on witness requests that cross a word boundary.  An earlier form compared expression spellings
+    (`idx // 32` vs `idx >> 5`) and alarmed on equivalent arithmetic."""
+    from .C02 import d2_10
+    from .packets import _emit, d1_13
+
     dw = ctx.model.cls(f"{DT}:DWORD")
     bits = ctx.folder.class_attr(dw, "size")
     bits = bits * 8 if isinstance(bits, int) else None
     want = ctx.spec("logix_symbol")["bool_array_word_bits"]
     ctx.check(bits == want, ckey(dw.key, "bits"), dw.node, f"a BOOL-array word holds {want} bits", f"DWORD holds {bits} bits")
-    fn = ctx.model.func(f"{LX}:LogixDriver._parse_tag_request")
-    f = fn.node
-    blk = [n for n in walk(f) if isinstance(n, ast.If) and "DWORD" in src(n.test)]
-    ok = False
-    facts = {}
-    if len(blk) == 1:
-        b = blk[0]
-        consts = sorted({ctx.folder.eval(x.right, fn.module) for x in walk(b) if isinstance(x, ast.BinOp) and isinstance(x.op, (ast.FloorDiv, ast.Mod))})
-        facts["constants"] = consts
-        # read -> [0], write -> [idx // 32]
-        tagasg = [x for x in walk(b) if isinstance(x, ast.Assign) and atom_name(x.targets[0]) == "tag" and isinstance(x.value, ast.IfExp)]
-        rd_wr = False
-        if tagasg:
-            e = tagasg[0].value
-            rd_wr = src(e.test).replace(" ", "").replace('"', "'") == "rw=='r'" and "[0]" in src(e.body) and "idx//32" in src(e.orelse).replace(" ", "")
-        # element count ceiling
-        el = [x for x in walk(b) if isinstance(x, ast.Assign) and atom_name(x.targets[0]) == "elements"]
-        ceil_ok = False
-        if el:
-            v = el[0].value
-            s_ = src(v).replace(" ", "")
-            ceil_ok = s_ in ("total_size//32+(1iftotal_size%32else0)", "(total_size+31)//32", "-(-total_size//32)", "(total_size//32)+(1iftotal_size%32else0)".replace("(total_size//32)", "total_size//32"))
-        ts = [x for x in walk(b) if isinstance(x, ast.Assign) and atom_name(x.targets[0]) == "total_size"]
-        ts_ok = bool(ts) and src(ts[0].value).replace(" ", "") == "(bitor0)+elements"
-        bitidx = any(isinstance(x, ast.Assign) and atom_name(x.targets[0]) == "bit" and atom_name(x.value) == "idx" for x in walk(b))
-        facts.update({"read_write": rd_wr, "ceil": ceil_ok, "total": ts_ok, "bit_is_index": bitidx})
-        ok = consts == [want] and rd_wr and ceil_ok and ts_ok and bitidx
-    ctx.check(ok, ckey(fn, "dword-arithmetic"), blk[0] if blk else f, "reads address word 0 and keep the bit index; writes address word idx // 32; elements = ceil((bit + count) / 32)", f"BOOL-array request arithmetic deviates: {facts}", **{k: str(v) for k, v in facts.items()})
-    pr = ctx.model.func(f"{PU}:parse_read_reply")
-    m = [x for x in walk(pr.node) if isinstance(x, ast.BinOp) and isinstance(x.op, ast.Mult) and atom_name(x.left) == pr.node.args.args[2].arg]
-    ok = len(m) == 1 and ctx.folder.eval(m[0].right, pr.module) == want
-    ctx.check(ok, ckey(pr, "bool-count"), m[0] if m else pr.node, "a DWORD array of n elements is reported as BOOL[n * 32]", "BOOL count of a DWORD array is not elements * 32")
-    ev = ctx.model.func(f"{LX}:encode_value")
-    consts = sorted({ctx.folder.eval(x.right, ev.module) for x in walk(ev.node) if isinstance(x, ast.BinOp) and isinstance(x.op, (ast.FloorDiv, ast.Mod))})
-    ctx.check(consts == [want], ckey(ev, "dword-constants"), ev.node, "alignment test and word index use 32", f"encode_value uses word constants {consts}")
-    sb = ctx.model.cls(f"{PL}:ReadModifyWriteRequestPacket").methods["set_bit"]
-    consts = sorted({ctx.folder.eval(x.value, ev.module) for x in walk(sb) if isinstance(x, ast.AugAssign) and isinstance(x.op, ast.Mod)})
-    ctx.check(consts == [want], ckey(f"{PL}:ReadModifyWriteRequestPacket.set_bit", "dword-constant"), sb, "bit index reduced modulo 32", f"set_bit reduces the bit index modulo {consts}")
+    d1_11(ctx)
+    d1_13(ctx)
+    d2_10(ctx)
+    _emit(ctx, {"bit-write", "bit-write-refusals"})
 
 
-@rule(P, "D1.8", "T-TT", floor=3)
+@rule(P, "D1.8", "T-WITNESS", floor=3)
 def d1_8(ctx):
-    """Type strings: `[n]` exactly when elements > 1; BOOL[n*32] for DWORD arrays; BOOL / BOOL[k] for bit and BOOL-range reads."""
-    pr = ctx.model.func(f"{PU}:parse_read_reply")
-    f = pr.node
-    elp = f.args.args[2].arg
-    chain = [n for n in walk(f) if isinstance(n, ast.If) and isinstance(n.test, ast.Compare) and atom_name(n.test.left) == "dt_name"]
-    ok = False
-    if len(chain) == 1:
-        c = chain[0]
-        dword = ctx.folder.eval(c.test.comparators[0], pr.module) == "DWORD" and any(isinstance(s, ast.Assign) and isinstance(s.value, ast.JoinedStr) and "BOOL[" in src(s.value) for s in c.body)
-        el = c.orelse[0] if len(c.orelse) == 1 and isinstance(c.orelse[0], ast.If) else None
-        many = False
-        if el is not None:
-            cc = cmp_norm(el.test)
-            many = cc is not None and cc[0] == "<=0" and cc[1].terms == {elp: -1} and cc[1].const == 2 and any(isinstance(s, ast.Assign) and isinstance(s.value, ast.JoinedStr) and "{dt_name}[{" + elp + "}]" in src(s.value) for s in el.body) and not el.orelse
-        ok = dword and many
-    ctx.check(ok, ckey(pr, "type-string"), chain[0] if chain else f, "DWORD -> BOOL[n*32]; elements > 1 -> name[n]; else the bare name", "reported type strings changed (count suffix / BOOL-array naming)")
-    rets = [r for r in walk(f) if isinstance(r, ast.Return)]
-    ok = len(rets) == 1 and isinstance(rets[0].value, ast.Tuple) and [atom_name(x) for x in rets[0].value.elts] == ["_value", "dt_name"]
-    ctx.check(ok, ckey(pr, "returns"), f, "returns (value, type string)", "parse_read_reply no longer returns (value, type string)")
-    rd = ctx.model.func(f"{LX}:LogixDriver.read")
-    tags = [c for c in walk(rd.node) if isinstance(c, ast.Call) and call_name(c) == "Tag" and len(c.args) >= 3]
-    types = sorted({src(c.args[2]) for c in tags})
-    ok = "'BOOL'" in types and "data_type" in types and any(isinstance(n, ast.Assign) and atom_name(n.targets[0]) == "data_type" and isinstance(n.value, ast.JoinedStr) and src(n.value) == "f'BOOL[{bool_elements}]'" for n in walk(rd.node))
-    ctx.check(ok, ckey(rd, "bit-type-strings"), rd.node, "bit reads report BOOL, BOOL ranges report BOOL[k]", f"type strings of bit / BOOL-range reads changed: {types}", types=types)
-    names = [c for c in tags if src(c.args[0]).replace('"', "'") == "request_data['user_tag']"]
-    ctx.check(len(names) >= 3, ckey(rd, "user-tag"), rd.node, "results carry the user's tag name without the element suffix", "results no longer carry request_data['user_tag']")
+    """Type strings: `[n]` exactly when elements > 1; BOOL[n*32] for DWORD arrays; BOOL / BOOL[k] for bit and BOOL-range reads;
+    results carry the user's tag name.  Decided by folding `parse_read_reply` (D1.13) and `read` (D1.14) on witnesses."""
+    from .driver import d1_14
+    from .packets import d1_13
+
+    d1_13(ctx)
+    d1_14(ctx)
 
 
-@rule(P, "D1.9", "T-DATAFLOW", floor=2)
+@rule(P, "D1.9", "T-WITNESS", floor=2)
 def d1_9(ctx):
-    """The BOOL-array index helper splits name and index at the same (last) bracket; _parse_tag_request uses it for both."""
-    fn = ctx.model.func("pycomm3.util:get_array_index")
-    f = fn.node
-    last_ops, first_ops = [], []
-    for c in walk(f):
-        if isinstance(c, ast.Call):
-            nm = call_name(c) or ""
-            arg0 = ctx.folder.eval(c.args[0], fn.module) if c.args else None
-            if nm.endswith((".rsplit", ".rfind", ".rindex", ".rpartition")) and arg0 == "[":
-                last_ops.append(src(c))
-            elif nm.endswith((".split", ".find", ".index", ".partition")) and arg0 == "[":
-                first_ops.append(src(c))
-            elif nm in ("strip_array",) or nm.endswith(".strip_array"):
-                first_ops.append(src(c))
-    ctx.check(bool(last_ops) and not first_ops, ckey(fn, "same-bracket"), f, "name and index are both taken at the last `[`",
-              f"get_array_index locates brackets with {first_ops} (first bracket) and {last_ops} (last bracket): for a nested path such as `udts[2].flags[5]` the name and the index come from different brackets", first=first_ops, last=last_ops)
-    rets = [r for r in walk(f) if isinstance(r, ast.Return)]
-    ok = len(rets) == 1 and isinstance(rets[0].value, ast.Tuple) and len(rets[0].value.elts) == 2
-    conv = any(isinstance(c, ast.Call) and call_name(c) == "int" for c in walk(f))
-    ctx.check(ok and conv, ckey(fn, "returns"), f, "returns (name, int index)", "get_array_index no longer returns (name, int(index))")
-    ptr = ctx.model.func(f"{LX}:LogixDriver._parse_tag_request")
-    use = [n for n in walk(ptr.node) if isinstance(n, ast.Assign) and isinstance(n.value, ast.Call) and (call_name(n.value) or "").endswith("get_array_index")]
-    ok = len(use) == 1 and isinstance(use[0].targets[0], ast.Tuple) and [atom_name(x) for x in use[0].targets[0].elts] == ["_tag", "idx"] and atom_name(use[0].value.args[0]) == "tag"
-    ctx.check(ok, ckey(ptr, "uses-helper"), use[0] if use else ptr.node, "the request's BOOL-array name and index come from one get_array_index(tag) call", "BOOL-array name and index are not taken from one get_array_index(tag) call")
+    """The BOOL-array index helper splits name and index at the last bracket, and `_parse_tag_request` addresses the member
+    the index belongs to.  Decided by folding `get_array_index` (D1.19) and `_parse_tag_request` (D1.11) on witnesses with an
+    earlier subscript in the path (`udt_arr[2].flags[5]`)."""
+    from .driver import d1_19
+
+    d1_19(ctx)
+    d1_11(ctx)
 
 
 @rule(P, "D1.10", "T-FILTER", floor=2)
